@@ -463,7 +463,8 @@ def build(node):
     if k == "inv":
         return build(node[1]).inverse
     if k == "scale":
-        return SX(node[1]) * build(node[2]) if not isinstance(node[1], (int, float)) else node[1] * build(node[2])
+        fac = float(node[1]) if node[1].is_Rational else SX(node[1])       # -1.5 * op : a plain real number, absorbed by simplify
+        return fac * build(node[2])
     if k == "chain":
         return build(node[1]) @ build(node[2])
     if k == "sum":
@@ -526,7 +527,7 @@ def _gen_trees(leaves, depth, rnd, count):
     systematic = []
     for kind, nodes in by_kind.items():
         for inner in rnd.sample(nodes, min(len(nodes), 5)):
-            systematic += [("adj", inner), ("inv", inner), ("scale", c, inner)]
+            systematic += [("adj", inner), ("inv", inner), ("scale", c, inner), ("scale", sp.Rational(-3, 2), inner)]
             for l in rnd.sample(lv, 3):
                 systematic += [("chain", inner, l), ("chain", l, inner), ("sum", inner, l), ("diff", l, inner)]
     pool2 = lv + rnd.sample(d1, min(len(d1), 40))
